@@ -524,6 +524,17 @@ def check_C10(work, prop, tier, seed, t0):
         f.writelines(lines)
     model_runs = [{"stage": "model:ArtNode", "alphabet": alphabet, "states": r.states, "transitions": r.transitions,
                    "emitted": len(lines), "wall_s": round(r.wall, 1)}]
+    # the raw-lane model implements the node abstraction of the tree model (L2 refines L1), same alphabet
+    with open(os.path.join(work.specdir, "MC_noderef.tla"), "w") as f:
+        f.write("---- MODULE MC_noderef ----\nEXTENDS ArtNodeRefines\nMCAlphabet == {%s}\nMCProbes == 0..255\n====\n" % ", ".join(map(str, alphabet)))
+    with open(os.path.join(work.specdir, "MC_noderef.cfg"), "w") as f:
+        f.write("CONSTANTS\n Alphabet <- MCAlphabet\n Probes <- MCProbes\n EmitEdges = FALSE\n GuardFill = TRUE\n Unsigned16 = TRUE\n"
+                "INIT RInit\nNEXT RNext\nVIEW RView\nINVARIANTS Refines CollapseOK\nCHECK_DEADLOCK FALSE\n")
+    rr = run_model(work, "MC_noderef", work.path("none2.ndjson"), workers=4, timeout=1800)
+    if rr.violation or not rr.ok:
+        raise Infra("ArtNode does not refine the L1 node abstraction: %s %s" % (rr.violation, rr.error or rr.out_tail[-500:]))
+    model_runs.append({"stage": "model:ArtNodeRefines (L2 node implements L1 node)", "states": rr.states, "transitions": rr.transitions,
+                       "wall_s": round(rr.wall, 1)})
     files, total_lines, total_ops, segs, samples, kinds = [], 0, 0, 0, [], {}
     for vname, drv in variants:
         tr = work.path("node-%s.ndjson" % vname)
